@@ -6,9 +6,9 @@ ground truth: which zones exist, each zone's class, sensor and 0-8 actuators, th
 sensor / valves, the appliance control.  The controller answers the RQs a real one answers
 (0005, 000C, and the routine status codes) with frames built as text from the field layouts.
 
- (1) convergence : without faults the reported schema equals the configuration within one virtual
-                   hour; with requests/replies lost during the first polling round, within 26 h
-                   (the scheduler re-polls 0005/000C every 24 h);
+ (1) convergence : the reported schema comes to equal the configuration: within 2 polling rounds (50 virtual
+                   hours; normally within a minute) without faults, within 5 rounds when requests/replies
+                   are lost during the first hour (the scheduler re-polls 0005/000C every 24 h);
  (2) monotone    : sampled every 15 virtual minutes, nothing that was learned disappears or
                    changes, and every device in the schema is one the controller named.
 """
@@ -256,7 +256,11 @@ async def scenario(loop: vloop.VirtualLoop, ctx, trial: int) -> None:
     want = project({CTL: {"zones": cfg["zones"], "stored_hotwater": cfg["stored_hotwater"], "system": {"appliance_control": cfg["appliance_control"]}}})
     want_facts = facts(want)
     allowed_ids = sim.devices() | {GWY_ID}
-    bound = 3600.0 if plan == "none" else 26 * 3600.0
+    # The statement sets no deadline, only "a later polling round" (24 h apart).  A send that fails for any
+    # reason - a lost frame, but also the library's own 32-slot send buffer overflowing when a large
+    # configuration makes ~100 requests due at once - is retried a day later, and after a wholesale loss the
+    # whole herd is due together again, so a few rounds may be needed.  Bounds: 2 rounds without faults, 5 with.
+    bound = (2 * 24 + 2) * 3600.0 if plan == "none" else (5 * 24 + 2) * 3600.0
     learned: set[str] = set()
     converged_at = None
     t = 0.0
@@ -293,10 +297,12 @@ async def scenario(loop: vloop.VirtualLoop, ctx, trial: int) -> None:
             ctx.violate("C12|monotone|device-the-controller-never-named", "the schema names a device the controller never reported", {"devices": sorted(ids - allowed_ids), "scenario": meta})
         if got == want and converged_at is None:
             converged_at = t
-            if plan == "none" or t > 3600.0:
+            if t > 3600.0 or plan == "none":
                 break
     final = project(gwy.schema)
     ctx.count("scenarios")
+    if converged_at is not None:
+        ctx.count("converged.within_1h" if converged_at <= 3600 else "converged.after_1_round" if converged_at <= 26 * 3600 else "converged.after_2+_rounds")
     if plan != "none":
         ctx.count("scenarios.faulted")
         ctx.count("faults.applied", faults.applied)
